@@ -14,6 +14,8 @@
 
 //! Standard SCION path routing logic
 
+use std::cell::Cell;
+
 use sciparse::{
     core::view::View,
     dataplane_path::standard::{
@@ -119,6 +121,7 @@ impl StdRoutingLogic {
                 current_interface_id: ingress_interface_id,
                 forwarding_key,
                 ignore_macs,
+                segment_changed: Cell::new(false),
             },
             ingress_interface_id == 0,
         );
@@ -188,6 +191,7 @@ impl StdRoutingLogic {
             interface_link_type_lookup,
             forwarding_key,
             ignore_macs,
+            segment_changed: Cell::new(false),
         });
 
         // Check if the path was advanced successfully or if there was an error
@@ -482,6 +486,9 @@ struct StandardValidator<'a, Lookup: Fn(u16) -> Option<AsRoutingInterfaceState>>
     current_interface_id: u16,
     forwarding_key: &'a ForwardingKey,
     ignore_macs: bool,
+    /// Set once the segment change was validated: the hop field validated after it is the first
+    /// one of the next segment, which the packet leaves through its egress interface only.
+    segment_changed: Cell<bool>,
 }
 impl<'a, Lookup: Fn(u16) -> Option<AsRoutingInterfaceState>> AdvanceValidator
     for StandardValidator<'a, Lookup>
@@ -505,8 +512,11 @@ impl<'a, Lookup: Fn(u16) -> Option<AsRoutingInterfaceState>> AdvanceValidator
         match self.ingress {
             // Checks done on ingress
             true => {
-                if self.current_interface_id != 0
-                    && ingress_interface != 0
+                // The packet did not enter through the first hop field of the segment it changes
+                // to (on a shortcut that hop field still names the unused interface towards the
+                // parent), every other hop field must name the interface the packet came in on.
+                if !self.segment_changed.get()
+                    && self.current_interface_id != 0
                     && ingress_interface != self.current_interface_id
                 {
                     return Err(StandardRoutingError::InvalidIngressInterface {
@@ -633,6 +643,8 @@ impl<'a, Lookup: Fn(u16) -> Option<AsRoutingInterfaceState>> AdvanceValidator
             // Invalid configuration
             _ => false,
         };
+
+        self.segment_changed.set(true);
 
         match segment_change_valid {
             true => Ok(()),
